@@ -1,6 +1,7 @@
 import Xp.Model.C14
 import Xp.Proofs.C14
 import Xp.Proofs.C14Rev
+import Xp.Proofs.C14World
 import Xp.Gen.PkgNames
 /-
 C14 — a package has at most one active revision, numbered last; history GC
@@ -385,6 +386,257 @@ example : ∀ s' ∈ reach sem (Plan.at 4 .crashAfter) 0 (pkgReconcile d5Env "p"
   fun s' h => (le_one_active_every_prefix d5Env "p" _ 0 d5Store (by decide) (by decide) s' h).2
 
 example : (run sem Plan.allOk 0 (pkgReconcile d5Env "p") d5Store).2 = some (.done "p-1111111111aa" false) := by
+  decide
+
+/-! ### the world around a reconcile: cached reads, other clients, error classes, other packages
+
+`Model/C14World.lean`: the reconciler's client reads through an informer cache (`View`, a
+parameter), other clients act before every API call (`Sched.env`), a failing call fails with an
+error class (`Out.fail e`), and the package slot of the store holds whichever package of the
+kind is being reconciled.  The theorems above (about `Xp.run sem`) are the special case of a
+fresh cache, no other client and a plain fault plan: -/
+
+/-- With a fresh cache, nobody else and the error classes of a plain fault plan, the world
+semantics IS the plain one: same final store and result, and every instant of the world run is
+an instant of the plain run - so every theorem above speaks about this special case of the
+world below. -/
+theorem world_without_interference_is_plain (plan : Plan) (k : Nat) (pname : String) (env : Env) (s : Store) :
+    (runW (Sched.ofPlan plan) k (pkgReconcile env pname) (World.fresh s)).1.live = (run sem plan k (pkgReconcile env pname) s).1 ∧
+    (runW (Sched.ofPlan plan) k (pkgReconcile env pname) (World.fresh s)).2 = (run sem plan k (pkgReconcile env pname) s).2 ∧
+    ∀ w ∈ reachW (Sched.ofPlan plan) k (pkgReconcile env pname) (World.fresh s),
+      w.live ∈ reach sem plan k (pkgReconcile env pname) s :=
+  ⟨(runW_fresh plan k _ _ (FreshW_fresh s)).1, (runW_fresh plan k _ _ (FreshW_fresh s)).2,
+   reachW_fresh plan k _ _ (FreshW_fresh s)⟩
+
+/-- AT MOST ONE ACTIVE, UNDER INTERFERENCE, FOR EVERY ERROR CLASS, FOR EVERY PACKAGE OF THE KIND.
+A reconcile of package `q`, started in a world whose revision cache is fresh, under ANY schedule
+- any outcome of any API call incl. a crash before/after it, a failure of ANY error class
+(NotFound, Conflict, any other) at ANY call except a NotFound answer to the List of revisions
+(call 1; see `list_notfound_makes_two_active_witness`), and other clients doing before EVERY call
+anything that obeys the rely `Quiet` (editing the package, writing / deactivating / deleting
+revisions, creating inactive ones, the cache catching up; `other_clients_obey_the_rely`) -
+keeps names unique and at most one revision Active at EVERY instant, for EVERY package `pname`:
+the reconciled one (`pname = q`) and every other one (a reconcile never activates a revision
+of another package).  The package may be read through a lagging cache (any `view.pkg`). -/
+theorem le_one_active_every_instant_under_interference (env : Env) (pname q : String) (sc : Sched)
+    (hrely : ∀ k w, Quiet w (sc.env k w)) (hlist : sc.out 1 ≠ .fail .notFound)
+    (w0 : World) (hfresh : w0.view.revs = none)
+    (hwf : WF w0.live) (h1 : (activeW pname w0).length ≤ 1) :
+    ∀ w ∈ reachW sc 0 (pkgReconcile env q) w0, WF w.live ∧ (activeW pname w).length ≤ 1 := by
+  intro w hw
+  exact (InvL_iff pname w).mp
+    (reconcile_reachW_InvL True env pname q sc hrely hlist w0 hfresh ((InvL_iff pname w0).mpr ⟨hwf, h1⟩) w hw)
+
+/-- EVERY OTHER REVISION IS DEACTIVATED, however many were Active to start with: when a reconcile
+of `q` runs to completion in such a world (fresh revision cache, any admissible schedule: faults of
+every class, other clients obeying the rely), no revision of `q` other than the current one is
+Active in the final store. -/
+theorem every_other_revision_inactive_after_reconcile (env : Env) (q : String) (sc : Sched)
+    (hrely : ∀ k w, Quiet w (sc.env k w)) (hlist : sc.out 1 ≠ .fail .notFound)
+    (w0 : World) (hfresh : w0.view.revs = none) (hwf : WF w0.live) (c : String) (a : Bool)
+    (hrun : (runW sc 0 (pkgReconcile env q) w0).2 = some (.done c a)) :
+    ∀ x ∈ (runW sc 0 (pkgReconcile env q) w0).1.live.revs, isActive q x = true → x.name = c :=
+  reconcile_runW_done False env q q sc hrely hlist w0 hfresh ⟨hwf, fun f => f.elim⟩ _ hrun c a rfl rfl
+
+/-- ... in particular in the plain world of the theorems above, under every fault plan. -/
+theorem every_other_revision_inactive_after_plain_reconcile (env : Env) (pname : String) (plan : Plan)
+    (s s' : Store) (hwf : WF s) (c : String) (a : Bool)
+    (hrun : run sem plan 0 (pkgReconcile env pname) s = (s', some (.done c a))) :
+    ∀ x ∈ s'.revs, isActive pname x = true → x.name = c := by
+  obtain ⟨e1, e2⟩ := runW_fresh plan 0 (pkgReconcile env pname) (World.fresh s) (FreshW_fresh s)
+  have hl : (Sched.ofPlan plan).out 1 ≠ .fail .notFound := by
+    simp only [Sched.ofPlan]; cases plan 1 <;> simp
+  have h := every_other_revision_inactive_after_reconcile env pname (Sched.ofPlan plan) (fun _ w => Quiet.refl w) hl
+    (World.fresh s) rfl hwf c a (by rw [e2]; show (run sem plan 0 _ s).2 = _; rw [hrun])
+  rw [e1] at h
+  have : (run sem plan 0 (pkgReconcile env pname) (World.fresh s).live).1 = s' := by
+    show (run sem plan 0 _ s).1 = s'; rw [hrun]
+  rw [this] at h
+  exact h
+
+/-- Every action of another client the harness performs (`Act`: package edit, revision write,
+delete, deactivation, creation of a non-Active revision, cache sync), and every sequence of them,
+obeys the rely of `le_one_active_every_instant_under_interference`. -/
+theorem other_clients_obey_the_rely (acts : Nat → List Act) :
+    ∀ k w, Quiet w ((acts k).foldl actW w) :=
+  fun k w => acts_quiet (acts k) w
+
+/-- one step of a history of the whole kind: a reconcile of package `q` - whose stored version at
+that moment is `pk` and whose cached version is `vp`, both arbitrary - under schedule `sc`, or
+an action of another client -/
+inductive WStep where
+  | reconcile (env : Env) (q : String) (pk : Option Pkg) (vp : Option (Option Pkg)) (sc : Sched)
+  | act (a : Act)
+
+/-- the schedules the history theorem speaks about -/
+def WStep.admissible : WStep → Prop
+  | .reconcile _ _ _ _ sc => (∀ k w, Quiet w (sc.env k w)) ∧ sc.out 1 ≠ .fail .notFound
+  | .act _ => True
+
+def WStep.start (s : Store) (pk : Option Pkg) (vp : Option (Option Pkg)) : World :=
+  { live := { s with pkg := pk }, view := { pkg := vp } }
+
+/-- every store visible during a history (the revision cache is fresh at the start of each reconcile) -/
+def histW : List WStep → Store → List Store
+  | [], s => [s]
+  | .act a :: rest, s => s :: histW rest (actW (World.fresh s) a).live
+  | .reconcile env q pk vp sc :: rest, s =>
+    (reachW sc 0 (pkgReconcile env q) (WStep.start s pk vp)).map (·.live) ++
+      histW rest (runW sc 0 (pkgReconcile env q) (WStep.start s pk vp)).1.live
+
+theorem runW_mem_reachW {α : Type} (sc : Sched) (k : Nat) (p : P α) (w : World) : (runW sc k p w).1 ∈ reachW sc k p w := by
+  induction p generalizing k w with
+  | ret a => simp [runW, reachW]
+  | call r c ih =>
+    cases ho : sc.out k with
+    | ok =>
+      rw [runW_ok _ _ _ _ _ ho, reachW_ok _ _ _ _ _ ho]
+      exact List.mem_cons_of_mem _ (List.mem_cons_of_mem _ (ih _ _ _))
+    | fail e =>
+      rw [runW_fail _ _ _ _ _ e ho, reachW_fail _ _ _ _ _ e ho]
+      exact List.mem_cons_of_mem _ (ih _ _ _)
+    | crashBefore => rw [runW_crashBefore _ _ _ _ _ ho, reachW_crashBefore _ _ _ _ _ ho]; simp
+    | crashAfter => rw [runW_crashAfter _ _ _ _ _ ho, reachW_crashAfter _ _ _ _ _ ho]; simp
+
+/-- ... over every history of the whole kind: any sequence of reconciles of ANY packages of the
+kind (each with arbitrary package content, arbitrary lag of the package cache, its own registry
+answers, its own admissible schedule: faults and crashes of every class, other clients before
+every call) interleaved with actions of other clients: at every instant at most one revision
+of `pname` is Active and names are unique. -/
+theorem le_one_active_every_world_history (pname : String) (h : List WStep) (hadm : ∀ st ∈ h, st.admissible)
+    (s : Store) (hwf : WF s) (h1 : (activeRevs pname s).length ≤ 1) :
+    ∀ s' ∈ histW h s, WF s' ∧ (activeRevs pname s').length ≤ 1 := by
+  have hinv : Inv pname s := ⟨hwf, h1⟩
+  clear hwf h1
+  induction h generalizing s with
+  | nil => intro s' hm; simp [histW] at hm; subst hm; exact hinv
+  | cons st rest ih =>
+    have hrest : ∀ st' ∈ rest, st'.admissible := fun st' hm => hadm st' (List.mem_cons_of_mem _ hm)
+    cases st with
+    | act a =>
+      intro s' hm
+      simp only [histW, List.mem_cons] at hm
+      rcases hm with e | hm
+      · subst e; exact hinv
+      · refine ih hrest _ ?_ s' hm
+        exact (InvL_iff pname _).mp (InvL_quiet ((InvL_iff pname (World.fresh s)).mpr hinv) (actW_quiet _ a))
+    | reconcile env q pk vp sc =>
+      obtain ⟨hr, hl⟩ := hadm _ List.mem_cons_self
+      have hstart : InvL True pname (WStep.start s pk vp) := (InvL_iff pname (WStep.start s pk vp)).mpr hinv
+      have hall := reconcile_reachW_InvL True env pname q sc hr hl (WStep.start s pk vp) rfl hstart
+      intro s' hm
+      simp only [histW, List.mem_append, List.mem_map] at hm
+      rcases hm with ⟨w, hw, e⟩ | hm
+      · subst e; exact (InvL_iff pname w).mp (hall w hw)
+      · exact ih hrest _ ((InvL_iff pname _).mp (hall _ (runW_mem_reachW sc 0 _ _))) s' hm
+
+/-- HISTORY GC IN EVERY WORLD.  Whatever the cache holds, whatever other clients do and whatever
+fails: a Delete the reconcile applies targets a revision of the list the reconciler was SERVED
+(`heardCtx`: the package its Get answered, the revisions its List answered), which is not the
+current one, has the lowest number among the non-current revisions of that list, and the list is
+longer than revisionHistoryLimit+1 of the package it was served, with a limit other than 0. -/
+theorem gc_judged_on_served_list_in_every_world (env : Env) (pname : String) (sc : Sched) (w0 : World)
+    (x : World × Req × Resp) (n : String)
+    (hx : x ∈ ownW sc 0 (pkgReconcile env pname) w0) (hn : x.2.1 = .deleteRev n) :
+    ∃ p listed cur lim, heardCtx (heardW sc 0 (pkgReconcile env pname) w0) = some (p, listed) ∧
+      revisionName env p = .ok cur ∧ n ≠ cur ∧
+      (∃ v ∈ listed, v.name = n ∧ ∀ y ∈ listed, y.name ≠ cur → v.number ≤ y.number) ∧
+      p.spec.limit = some lim ∧ lim ≠ 0 ∧ (listed.length : Int) > lim + 1 := by
+  obtain ⟨p, listed, cur, v, hc, hr, _, hg, hv⟩ := world_delete_is_heard_victim env pname sc w0 x n hx hn
+  obtain ⟨lim, hl, hne, hlen, ho⟩ := gcVictim_some hg
+  obtain ⟨h1, h2, h3⟩ := oldestNonCurrent_spec ho
+  exact ⟨p, listed, cur, lim, hc, hr, hv ▸ h2, ⟨v, h1, hv, h3⟩, hl, hne, hlen⟩
+
+/-- NO REVISION WRITE WITHOUT A RESOLVED NAME, IN EVERY WORLD.  Whatever the cache holds, whatever
+other clients do and whatever fails: if the reconcile applies a write to any revision (create,
+patch, update, delete), then the revisioner resolved a non-empty name for the package the
+reconciler was served - i.e. (`revisioner_name_sound`) the digest fetched for ITS source, or the
+recorded revision of the same identifier under IfNotPresent, or the source string under Never.
+In particular a failed fetch of any class is followed by no revision write. -/
+theorem revision_write_only_after_name_resolved_in_every_world (env : Env) (pname : String) (sc : Sched) (w0 : World)
+    (x : World × Req × Resp)
+    (hx : x ∈ ownW sc 0 (pkgReconcile env pname) w0) (hw : isRevWrite x.2.1 = true) :
+    ∃ p listed cur, heardCtx (heardW sc 0 (pkgReconcile env pname) w0) = some (p, listed) ∧
+      revisionName env p = .ok cur ∧ cur ≠ "" :=
+  world_rev_write_needs_name env pname sc w0 x hx hw
+
+/-! ### findings of the unchanged tree in the new dimensions (witnesses by evaluation) -/
+
+def wRev (name : String) (n : Int) (st : State) (img : String) : Rev :=
+  { name := name, parent := some "p", number := n, state := st, ctrl := some "u-p", image := img, labels := [],
+    fin := false, deleting := false }
+
+/-- corpus/C14/stale-list.jsonl at the moment of the second reconcile: the package was moved
+v1 -> v2 (revision ..2222bb created Active, ..1111aa deactivated) and then v2 -> v3 -/
+def staleLive : Store :=
+  { pkg := some { name := "p", uid := "u-p",
+                  spec := { source := "xpkg.io/org/pkg:v3", limit := none, policy := .unset, pull := .unset, paused := false, labels := [] },
+                  status := { curRev := "p-2222222222bb", curId := "xpkg.io/org/pkg:v2", pausedCond := false } }
+    revs := [wRev "p-1111111111aa" 1 .inactive "xpkg.io/org/pkg:v1", wRev "p-2222222222bb" 2 .active "xpkg.io/org/pkg:v2"] }
+
+/-- ... read through a revision cache that has seen ..1111aa deactivated but not yet ..2222bb created -/
+def staleWorld : World :=
+  { live := staleLive, view := { revs := some [wRev "p-1111111111aa" 1 .inactive "xpkg.io/org/pkg:v1"] } }
+
+def staleEnv : Env := { head := fun _ => .digest "3333333333cc2222", parseOk := fun _ => true }
+
+def quietSched : Sched := { out := fun _ => .ok, env := fun _ w => w }
+
+set_option maxRecDepth 100000 in
+/-- FINDING (cache lag, class c): `le_one_active_every_instant_under_interference` needs the
+fresh revision cache.  When the List of revisions is served by a cache that lags behind the
+reconciler's own previous write (two source edits in quick succession), the reconcile of the
+UNCHANGED code creates the revision of the new source Active while the previous one is still
+Active - two Active revisions - and gives it a number already in use.  Nobody else acts and
+nothing fails. -/
+theorem stale_revision_list_makes_two_active_witness :
+    (activeW "p" staleWorld).length = 1 ∧
+    ((reachW quietSched 0 (pkgReconcile staleEnv "p") staleWorld).any fun w => decide ((activeW "p" w).length = 2)) = true ∧
+    ((runW quietSched 0 (pkgReconcile staleEnv "p") staleWorld).1.live.revs.map fun r => (r.name, r.number, r.state))
+      = [("p-1111111111aa", 1, .inactive), ("p-2222222222bb", 2, .active), ("p-3333333333cc", 2, .active)] := by
+  decide
+
+/-- corpus/C14/list-notfound.jsonl: ..1111aa Active, the package moved to v2 -/
+def nfWorld : World :=
+  World.fresh
+    { pkg := some { name := "p", uid := "u-p",
+                    spec := { source := "xpkg.io/org/pkg:v2", limit := none, policy := .unset, pull := .unset, paused := false, labels := [] },
+                    status := { curRev := "p-1111111111aa", curId := "xpkg.io/org/pkg:v1", pausedCond := false } }
+      revs := [wRev "p-1111111111aa" 1 .active "xpkg.io/org/pkg:v1"] }
+
+def nfEnv : Env := { head := fun _ => .digest "2222222222bb1111", parseOk := fun _ => true }
+
+/-- the List of revisions (API call 1) is answered NotFound -/
+def nfSched : Sched := { out := fun k => if k = 1 then .fail .notFound else .ok, env := fun _ w => w }
+
+set_option maxRecDepth 100000 in
+/-- FINDING (error class, class d): ... and it needs a List that is not answered NotFound:
+`resource.IgnoreNotFound` turns that answer into an empty revision list, and the reconcile of the
+UNCHANGED code creates the new revision Active, numbered 1, next to the Active one. -/
+theorem list_notfound_makes_two_active_witness :
+    ((reachW nfSched 0 (pkgReconcile nfEnv "p") nfWorld).any fun w => decide ((activeW "p" w).length = 2)) = true ∧
+    ((runW nfSched 0 (pkgReconcile nfEnv "p") nfWorld).1.live.revs.map fun r => (r.name, r.number, r.state))
+      = [("p-1111111111aa", 1, .active), ("p-2222222222bb", 1, .active)] := by
+  decide
+
+/-- the hypotheses of the interference theorem are satisfiable by a non-trivial world and
+schedule: another client touches the Active revision between the List and the deactivating
+Patch (which then carries a stale resourceVersion): the reconcile requeues with one Active -/
+def touchSched : Sched := { out := fun _ => .ok, env := fun k w => if k = 4 then actW w (.touch "p-1111111111aa") else w }
+
+example : (∀ k w, Quiet w (touchSched.env k w)) ∧ touchSched.out 1 ≠ .fail .notFound ∧ nfWorld.view.revs = none ∧
+    WF nfWorld.live ∧ (activeW "p" nfWorld).length ≤ 1 := by
+  refine ⟨?_, by decide, rfl, by decide, by decide⟩
+  intro k w
+  simp only [touchSched]
+  split
+  · exact actW_quiet w _
+  · exact Quiet.refl w
+
+set_option maxRecDepth 100000 in
+example : (runW touchSched 0 (pkgReconcile nfEnv "p") nfWorld).2 = some .requeue ∧
+    ((runW touchSched 0 (pkgReconcile nfEnv "p") nfWorld).1.live.revs.map fun r => (r.name, r.state, r.fin))
+      = [("p-1111111111aa", .active, true)] := by
   decide
 
 end Xp.C14
